@@ -10,7 +10,7 @@ use std::io::{BufRead, BufReader, Write};
 use std::path::{Path, PathBuf};
 use std::sync::Mutex;
 
-type Tree = BTreeMap<String, u8>;
+pub type Tree = BTreeMap<String, u8>;
 
 #[derive(Clone, Debug, Serialize, Deserialize, PartialEq, Eq, Hash, PartialOrd, Ord)]
 pub struct State {
@@ -46,7 +46,7 @@ struct JobOut {
 
 const HOST: &str = "vhost";
 
-fn contents() -> Vec<Vec<u8>> {
+pub fn contents() -> Vec<Vec<u8>> {
     // one empty, and two of EQUAL length (a same-size edit must still be seen as a change)
     let mut c: Vec<Vec<u8>> = vec![b"".to_vec(), b"hello world\n".to_vec(), b"HELLO WORLD\n".to_vec()];
     c.sort_by_key(|x| *blake3::hash(x).as_bytes());
@@ -55,7 +55,7 @@ fn contents() -> Vec<Vec<u8>> {
 fn content_id(bytes: &[u8]) -> u8 {
     contents().iter().position(|c| c == bytes).map_or(255, |i| i as u8 + 1)
 }
-fn hash_of(id: u8) -> [u8; 32] {
+pub fn hash_of(id: u8) -> [u8; 32] {
     *blake3::hash(&contents()[(id - 1) as usize]).as_bytes()
 }
 fn id_of_hash(h: &[u8]) -> u8 {
@@ -867,7 +867,24 @@ pub struct Bound {
     pub state_cap: usize,
 }
 
+/// Archive file bytes (the on-disk format) for a pair of roots and a recorded tree.
+pub fn archive_bytes(first: &Path, second: &Path, r: &Tree) -> (PathBuf, Vec<u8>) {
+    let pair = crate::archive::root_pair_hash(first, second);
+    let mut entries = serde_json::Map::new();
+    for (p, id) in r {
+        entries.insert(p.clone(), json!({"blake3": hash_of(*id).to_vec(), "ftype": "File"}));
+    }
+    let bytes = serde_json::to_vec_pretty(&json!({"format_version": 1, "root_pair_hash": pair, "epoch": 4, "host_id": HOST, "entries": entries})).unwrap_or_default();
+    (PathBuf::from(format!(".copia/archive/{pair}.json")), bytes)
+}
+
 pub fn explore(ctx: &Ctx, mode: &str, bounds: &[Bound], fault_full_trunc_runs: u8) -> (Report, Vec<Violation>) {
+    explore_collect(ctx, mode, bounds, fault_full_trunc_runs, None)
+}
+
+/// As `explore`; with `collect`, every distinct pre-state of a bisync transition (and the history
+/// that first reached it) is also returned to the caller.
+pub fn explore_collect(ctx: &Ctx, mode: &str, bounds: &[Bound], fault_full_trunc_runs: u8, mut collect: Option<&mut Vec<(State, Vec<String>)>>) -> (Report, Vec<Violation>) {
     let pool = Pool::new(16);
     let mut violations: Vec<Violation> = Vec::new();
     let mut tot_states = 0u64;
@@ -926,6 +943,11 @@ pub fn explore(ctx: &Ctx, mode: &str, bounds: &[Bound], fault_full_trunc_runs: u
             }
             // bisync transitions (real code)
             let run_states: Vec<&State> = frontier.iter().filter(|st| st.runs < bd.e && (st.runs == 0 || st.ops > 0)).collect();
+            if let Some(c) = collect.as_deref_mut() {
+                for st in &run_states {
+                    c.push(((*st).clone(), hist.get(*st).cloned().unwrap_or_default()));
+                }
+            }
             let jobs: Vec<Job> = run_states
                 .iter()
                 .enumerate()
